@@ -113,7 +113,9 @@ fn build(case: &str, mode: &str, v: Vis, item_vis: &str, site: &str) -> Probe {
     let site_fn = |rel: &str| format!("#[allow(unused_imports)] fn site() {{ use {rel}{via}::{name} as _; }}");
     let s = |cond: &str, rel: &str| if site == cond { site_fn(rel) } else { String::new() };
     let src = format!(
-        "#![allow(warnings)]\npub mod a {{\n  pub mod b {{\n    pub mod c {{\n{}\n      {}\n      pub mod child {{ {} }}\n    }}\n    pub mod sibling {{ {} }}\n  }}\n  pub mod uncle {{ {} }}\n}}\npub mod cousin {{ {} }}\n{}\npub fn run() -> Vec<String> {{ vec![] }}\n",
+        "#![allow(warnings)]\n{}pub mod a {{\n  pub mod b {{\n    pub mod c {{\n{}\n      {}\n      pub mod child {{ {} }}\n    }}\n    pub mod sibling {{ {} }}\n  }}\n  pub mod uncle {{ {} }}\n}}\npub mod cousin {{ {} }}\n{}\npub fn run() -> Vec<String> {{ vec![] }}\n",
+        // named through the module only, the re-export next to the module is unused: that is nothing to warn the user about
+        if mode == "mod_path" { "#![deny(unused_imports)]\n" } else { "" },
         item.replace('\n', "\n      "),
         s("same", "self"),
         s("child", "super"),
